@@ -12,7 +12,7 @@ recipe = {
   'convention', 'atmos', 'justify', 'chars', 'spaces', 'block_order',
   'ops': [{'op': 'refine', 'cols': [...], 'bisect': False|True|'x'|'y'}, {'op': 'rotate', 'angle': a},
           {'op': 'translate', 'shift': [x, y, z]}, {'op': 'refine_layers', 'layers': [...], 'factor': k},
-          {'op': 'decompose'[, 'cols': [...]]}, {'op': 'split', 'col': i, 'node': j}, {'op': 'triangulate', 'col': i}],
+          {'op': 'delete', 'cols': [...]}, {'op': 'decompose'[, 'cols': [...]]}, {'op': 'split', 'col': i, 'node': j}, {'op': 'triangulate', 'col': i}],
           a refine op may give {'region': {'shape': ..., 'seed': i, ...}} instead of 'cols' (see region_columns) and
           'edge_pick': [i, ...] choosing bisect_edge_columns among the columns of the transition region (transition_candidates)
   'surfaces': [[col, layer, frac], ...]   # column index (mod n), underground layer index (mod n), position in the layer:
@@ -21,6 +21,8 @@ recipe = {
   'centres': [[col, fx, fy]],             # specified column centres (offset from centroid, fraction of bounding box)
   'wells': [{'name': 'W   1', 'pts': [[fx, fy, fz], ...]}],
   'header': {'unit': ''|'FEET ', 'perm_angle': a, 'atmos_volume': v, 'atmos_connection': d}
+  'det': True        # resolve column indices against ordered_columns() (by position) instead of columnlist order, which after
+                     # a refine() depends on memory addresses
 }
 """
 import os, string
@@ -82,13 +84,39 @@ def tiny(which):
     return g
 
 
-def bfs_columns(g, seed, n):
-    start = g.columnlist[seed % g.num_columns]
+def ordered_columns(g):
+    """columns sorted by position (centroid, then number of nodes, then name).  mulgrid.refine() creates its columns in the
+    iteration order of a set of objects, i.e. in an order that depends on memory addresses; recipes with rc['det'] = True resolve
+    every column index against this ordering, so that the same recipe always selects the same columns."""
+    return sorted(g.columnlist, key=position_key)
+
+
+def position_key(c):
+    from refs import geom_ref
+    cx, cy = geom_ref.centroid([(float(n.pos[0]), float(n.pos[1])) for n in c.node])
+    return (cx, cy, c.num_nodes, c.name)
+
+
+def column_at(g, i, rc=None):
+    """column number i (modulo the number of columns) of the recipe's column ordering"""
+    if rc is not None and rc.get('det'):
+        return ordered_columns(g)[i % g.num_columns]
+    return g.columnlist[i % g.num_columns]
+
+
+def columns_at(g, idx, rc=None):
+    lst = ordered_columns(g) if (rc is not None and rc.get('det')) else g.columnlist
+    return [lst[i % len(lst)] for i in idx]
+
+
+def bfs_columns(g, seed, n, rc=None):
+    start = column_at(g, seed, rc)
+    nbkey = position_key if (rc is not None and rc.get('det')) else (lambda x: x.name)
     seen, order, frontier = {start.name}, [start], [start]
     while frontier and len(order) < n:
         nxt = []
         for c in frontier:
-            for nb in sorted(c.neighbour, key=lambda x: x.name):
+            for nb in sorted(c.neighbour, key=nbkey):
                 if nb.name not in seen and len(order) < n:
                     seen.add(nb.name); order.append(nb); nxt.append(nb)
         frontier = nxt
@@ -213,7 +241,7 @@ def side_owners(g):
     return own
 
 
-def region_columns(g, spec):
+def region_columns(g, spec, rc=None):
     """Columns of a refinement region described by shape (resolved geometrically, so it works on any mesh):
     single | strip (band through the seed column along axis) | L (two half bands) | ring (columns sharing a node with the
     seed, without the seed: a region with a hole) | blob (breadth-first ball of `size` columns) | boundary (columns with a
@@ -221,7 +249,7 @@ def region_columns(g, spec):
     breadth-first parity) | random (indices `pick`) | all.  Returned in columnlist order."""
     n = g.num_columns
     shape = spec.get('shape', 'single')
-    seed = g.columnlist[spec.get('seed', 0) % n]
+    seed = column_at(g, spec.get('seed', 0), rc)
     sel = set()
     if shape == 'single':
         sel = {seed.name}
@@ -243,7 +271,7 @@ def region_columns(g, spec):
         sel.discard(seed.name)
         if not sel: sel = {seed.name}
     elif shape == 'blob':
-        sel = set(c.name for c in bfs_columns(g, spec.get('seed', 0), max(1, spec.get('size', 4))))
+        sel = set(c.name for c in bfs_columns(g, spec.get('seed', 0), max(1, spec.get('size', 4)), rc))
     elif shape == 'boundary':
         own = side_owners(g)
         bcols = [c for c in g.columnlist if any(len(own[s]) == 1 for s in column_sides(c))]
@@ -260,13 +288,13 @@ def region_columns(g, spec):
         while frontier:
             nxt = []
             for c in frontier:
-                for nb in sorted(c.neighbour, key=lambda x: x.name):
+                for nb in sorted(c.neighbour, key=position_key if (rc is not None and rc.get('det')) else (lambda x: x.name)):
                     if nb.name not in par:
                         par[nb.name] = 1 - par[c.name]; nxt.append(nb)
             frontier = nxt
         sel = set(nm for nm, p in par.items() if p == 0)
     elif shape == 'random':
-        sel = set(g.columnlist[i % n].name for i in spec.get('pick', [0]))
+        sel = set(c.name for c in columns_at(g, spec.get('pick', [0]), rc))
     elif shape == 'all':
         sel = set(c.name for c in g.columnlist)
     else:
@@ -274,7 +302,21 @@ def region_columns(g, spec):
     return [c for c in g.columnlist if c.name in sel]
 
 
-def transition_candidates(g, cols, bisect):
+def decompose_targets(g, op, rc=None):
+    """columns named by a decompose op: 'cols' indices, or with 'convex_only' every column with more than 4 sides that is
+    convex to within the library's own notion of a straight angle (2e-3 as a sine)"""
+    from refs import geom_ref
+    if op.get('cols'):
+        cols = list(dict((c.name, c) for c in columns_at(g, op['cols'], rc)).values())
+    else:
+        cols = list(g.columnlist)
+    if op.get('convex_only'):
+        cols = [c for c in cols if c.num_nodes > 4 and
+                geom_ref.is_convex([(float(n.pos[0]), float(n.pos[1])) for n in c.node], 2e-3)]
+    return cols
+
+
+def transition_candidates(g, cols, bisect, rc=None):
     """Columns just outside the refinement region that share a side which the refinement will divide (the documented
     domain of bisect_edge_columns).  For the bisecting modes the divided sides are those named by the library's own
     public column.bisection_sides() - used here to construct a valid argument, not as an oracle."""
@@ -290,7 +332,7 @@ def transition_candidates(g, cols, bisect):
         for s in sides:
             for o in own[s]:
                 if o.name not in inside: out[o.name] = o
-    return [c for c in g.columnlist if c.name in out]
+    return [c for c in (ordered_columns(g) if (rc is not None and rc.get('det')) else g.columnlist) if c.name in out]
 
 
 def build(rc):
@@ -319,7 +361,7 @@ def build(rc):
         apply_op(g, op, rc)
     und = g.layerlist[1:]
     for ci, li, fr in rc.get('surfaces', []):
-        col = g.columnlist[ci % g.num_columns]
+        col = column_at(g, ci, rc)
         if fr >= 1.0:
             lay = und[0]
             z = lay.top + (fr - 1.0) * (lay.top - lay.bottom) + 0.25
@@ -330,7 +372,7 @@ def build(rc):
         col.surface = float(z)
         g.set_column_num_layers(col)
     for ci, fx, fy in rc.get('centres', []):
-        col = g.columnlist[ci % g.num_columns]
+        col = column_at(g, ci, rc)
         bb = col.bounding_box
         c = col.centroid + np.array([fx * (bb[1][0] - bb[0][0]), fy * (bb[1][1] - bb[0][1])]) * 0.2
         col.centre = c; col.centre_specified = 1
@@ -357,20 +399,20 @@ def apply_op(g, op, rc=None):
     chars = CHARS[(rc or {}).get('chars', 'lower')]
     if k == 'refine':
         if op.get('region') is not None:
-            cols = region_columns(g, op['region'])
+            cols = region_columns(g, op['region'], rc)
             if op['region'].get('shape') == 'all' and op['region'].get('implicit'): cols = []
         else:
-            cols = [g.columnlist[i % g.num_columns] for i in op['cols']] if op.get('cols') is not None else []
+            cols = columns_at(g, op['cols'], rc) if op.get('cols') is not None else []
         cols = list(dict((c.name, c) for c in cols).values())
         kw = {}
         if op.get('edge_pick'):
-            cand = transition_candidates(g, cols, op.get('bisect', False))
+            cand = transition_candidates(g, cols, op.get('bisect', False), rc)
             if cand:
                 kw['bisect_edge_columns'] = list(dict((c.name, c) for c in
                                                       [cand[i % len(cand)] for i in op['edge_pick']]).values())
         elif op.get('edge'):
             kw['bisect_edge_columns'] = list(dict((c.name, c) for c in
-                                                  [g.columnlist[i % g.num_columns] for i in op['edge']]).values())
+                                                  columns_at(g, op['edge'], rc)).values())
         g.refine(cols, bisect=op.get('bisect', False), chars=chars, **kw)
     elif k == 'rotate':
         g.rotate(op['angle'], wells=True)
@@ -381,19 +423,24 @@ def apply_op(g, op, rc=None):
         lays = list(dict((l.name, l) for l in [und[i % len(und)] for i in op['layers']]).values())
         g.refine_layers(lays, factor=op.get('factor', 2), chars=chars)
     elif k == 'decompose':
-        if op.get('cols'):
-            cols = list(dict((c.name, c) for c in [g.columnlist[i % g.num_columns] for i in op['cols']]).values())
-            g.decompose_columns(cols, chars=chars)
+        if op.get('cols') or op.get('convex_only'):
+            cols = decompose_targets(g, op, rc)
+            if cols: g.decompose_columns(cols, chars=chars)
         else:
             g.decompose_columns(chars=chars)
+    elif k == 'delete':
+        # remove columns (holes, notches): reduce() to the remaining ones
+        drop = set(c.name for c in columns_at(g, op['cols'], rc))
+        keep = [c for c in g.columnlist if c.name not in drop]
+        if keep and len(keep) < g.num_columns: g.reduce(keep)
     elif k == 'split':
-        quads = [c for c in g.columnlist if c.num_nodes == 4]
+        quads = [c for c in (ordered_columns(g) if (rc or {}).get('det') else g.columnlist) if c.num_nodes == 4]
         if quads:
             col = quads[op['col'] % len(quads)]
             return g.split_column(col.name, col.node[op.get('node', 0) % 4].name, chars=chars)
         return None
     elif k == 'triangulate':
-        col = g.columnlist[op['col'] % g.num_columns]
+        col = column_at(g, op['col'], rc)
         return g.triangulate_column(col.name, chars=chars)
     else:
         raise ValueError('unknown op %r' % (op,))
